@@ -55,6 +55,17 @@ Extract(h) ==
                                 ELSE LET a == CHOOSE x \in hit : TRUE IN <<a.key, a.epoch>>)
     /\ UNCHANGED nextEpoch
 
+(* n times (insert an entry whose key k is below every queued key, pull): each pull must return *)
+(* the entry just inserted; the queue is left as it was, n epochs later.  Used by recorded      *)
+(* sequences to reach large insertion counts (an insertion counter narrower than the number of  *)
+(* insertions shows as a wrong order among equal keys afterwards).  ret = number of pairs whose *)
+(* pull returned the inserted entry.                                                            *)
+Churn(n, k) ==
+    /\ \A a \in items : a.key > k
+    /\ nextEpoch' = nextEpoch + n
+    /\ Log("churn", n, <<n>>)
+    /\ UNCHANGED items
+
 Handles == {h \in 1..(nextEpoch - 1) : h = 1 \/ h + MaxHandles >= nextEpoch}
 
 Next ==
